@@ -1,16 +1,19 @@
 #!/bin/sh
-# tools/mutant.sh <patch.diff | -e 'python-expr editing files'> <ID> [check args...]
-# Runs ./check <ID> against a scratch copy of /repo/src with the patch applied (PYTHONPATH override);
-# the copy lives under a fresh mktemp dir outside /repo and /verif and is removed afterwards.
+# tools/mutant.sh <patch.diff> <ID> [<ID>...]
+# Runs ./check <ID> against a scratch copy of /repo/src with the patch applied (PYTHONPATH override); the copy lives
+# under a fresh mktemp dir outside /repo and /verif and is removed afterwards.  Work files and evidence of these runs
+# go to <root>/.work/mutant/ so that the committed evidence/ is not disturbed.  <root> is the directory this script
+# lives in (so it also works from a `vp run` snapshot of /verif).
 set -e
-PATCH="$1"; shift
+ROOT="$(cd "$(dirname "$0")/.." && pwd)"
+PATCH="$(cd "$(dirname "$1")" && pwd)/$(basename "$1")"; shift
 D="$(mktemp -d /tmp/mut.XXXXXX)"
 trap 'rm -rf "$D"' EXIT
 mkdir -p "$D/repo"
 cp -r /repo/src "$D/repo/src"
 ( cd "$D/repo" && patch -p1 -s < "$PATCH" )
-cd /verif
-mkdir -p /verif/.work/mutant/work /verif/.work/mutant/evidence
+cd "$ROOT"
+mkdir -p "$ROOT/.work/mutant/work" "$ROOT/.work/mutant/evidence"
 for id in "$@"; do
-  PYTHONPATH="$D/repo/src" VERIF_MUTANT=1 VERIF_WORK=/verif/.work/mutant/work VERIF_EVID=/verif/.work/mutant/evidence ./check "$id" || echo "rc=$? for $id"
+  PYTHONPATH="$D/repo/src" VERIF_MUTANT=1 VERIF_WORK="$ROOT/.work/mutant/work" VERIF_EVID="$ROOT/.work/mutant/evidence" ./check "$id" || echo "rc=$? for $id"
 done
